@@ -242,6 +242,13 @@ func MakeHdr(kind string, sid uint8, idx int) *astits.PESHeader {
 			HasProgramPacketSequenceCounter: true, PacketSequenceCounter: 0x2a, MPEG1OrMPEG2ID: 1, OriginalStuffingLength: 0x15,
 			HasPSTDBuffer: true, PSTDBufferScale: 1, PSTDBufferSize: 0x1555,
 			HasExtension2: true, Extension2Data: []byte{0xa1, 0xa2, 0xa3}, Extension2Length: 3}
+	case "pack":
+		// every flag the struct can express, including the pack header field the writer does not implement
+		// (it announces pack_header_field_flag=0 and writes no pack header): whatever the Muxer does with it,
+		// accept or refuse, the output has to stay whole decodable packets and later calls have to be unaffected
+		h = MakeHdr("full", sid, idx)
+		h.OptionalHeader.HasPackHeaderField = true
+		h.OptionalHeader.PackField = 0x5a
 	default:
 		var n int
 		if _, err := fmt.Sscanf(kind, "s%d", &n); err != nil {
